@@ -310,6 +310,14 @@ func (s *srcFacts) ignoredBy(file string, dists ...string) bool {
 
 var configureRemoved = map[string]bool{"abstractions/devices-usb-read": true, "abstractions/devices-usb": true, "abstractions/nameservice-strict": true, "tunables/multiarch.d/base": true, "wg": true}
 
+func execCmdErr(name string, args ...string) error {
+	if len(args) > 1 {
+		_ = os.MkdirAll(strings.TrimSuffix(args[len(args)-1], "/"), 0o755)
+	}
+	_, err := execCmd(name, args...)
+	return err
+}
+
 func cfgRec(c Cfg) map[string]any {
 	return map[string]any{"dist": c.Dist, "ver": c.Ver}
 }
@@ -474,7 +482,25 @@ func checkC18(e *Env, r *Report) {
 	texts := map[string]string{} // content cache by hash
 	builds := make([]*Build, len(keys))
 	parallel(len(keys), 8, func(i int) {
-		builds[i] = e.RunPrebuild(need[keys[i]], BuildOpts{Src: f.aug, Tag: "aug", NoCache: true})
+		// every second build runs in a directory that served another kind of build before: the drop-ins
+		// of the other policy mode, a profile and a disable link are already there
+		var pre func(dir string) error
+		if i%2 == 1 {
+			other := "full"
+			if need[keys[i]].Full {
+				other = "early"
+			}
+			pre = func(dir string) error {
+				_ = execCmdErr("cp", "-a", filepath.Join(f.aug, "systemd", other)+"/.", filepath.Join(dir, ".build", "systemd")+"/")
+				for _, j := range []string{".build/apparmor.d/zz-stale-profile", ".build/apparmor.d/disable/zz-stale", ".build/apparmor.d/abstractions/zz-stale.d/x"} {
+					p := filepath.Join(dir, j)
+					_ = os.MkdirAll(filepath.Dir(p), 0o755)
+					_ = os.WriteFile(p, []byte("stale\n"), 0o644)
+				}
+				return nil
+			}
+		}
+		builds[i] = e.RunPrebuild(need[keys[i]], BuildOpts{Src: f.aug, Tag: "aug", NoCache: true, PreRun: pre})
 	})
 	for i, k := range keys {
 		b := builds[i]
